@@ -84,6 +84,8 @@ def gen_procs(rng, tier):
     # an ident template whose expansion is far longer than the template itself (devlog frame buffer must follow the ident BUFFER size)
     procs.append(dict(base, out="devlog", ident=b"%{env:IDL}", env=[b"PATH=/bin", b"IDL=" + b"i" * 200], calls=small(3)))
     procs.append(dict(base, out="devlog", ident=b"%{env:IDL}%{env:IDL}", env=[b"PATH=/bin", b"IDL=" + b"j" * 120], fmt=b"%{cmdline} " + b"m" * 300, calls=small(2)))
+    # the last component of the configured path is a symbolic link to the log file
+    procs.append(dict(base, out="file", arg=b"@D@/link.log", calls=small(3), pre={0: ["symlink\t@D@/out.log\t@D@/link.log"]}, sink_alias={b"/D/link.log": "out"}))
     # real uid differs from the effective uid (set-uid program started by an ordinary user): the output acts with the effective uid
     procs.append(dict(base, out="file", arg=b"@D@/out.log", calls=small(4), pre={0: ["ruid\t65534"]}))
     return procs
@@ -211,7 +213,7 @@ def check(run):
             nm = bytes.fromhex(name) if name != "-" else b""
             if tag == "0" and b"/./" in nm:
                 nm = os.path.normpath(nm.decode("latin-1")).encode("latin-1")      # the kernel resolves "./" components: same file
-            key = sinkmap.get((tag, nm), "?")
+            key = p.get("sink_alias", {}).get(nm) if tag == "0" and nm in p.get("sink_alias", {}) else sinkmap.get((tag, nm), "?")
             if key == "?" and p.get("exact_len") and tag == "2" and nm == p["arg"]:
                 key = "sockx"
             if key is None:
